@@ -917,7 +917,9 @@ func (node *Node) check(ctx context.Context) error {
 				node.state.SetWasInSync()
 			}
 
-			if !node.state.NotifiedSync() {
+			// Headers that arrive after the in sync flag was set add block requests without
+			// clearing it, so wait until those blocks are processed before telling the handlers.
+			if !node.state.NotifiedSync() && node.state.BlockRequestsEmpty() {
 				// TODO Add method to wait for mempool to sync
 				for _, handler := range node.handlers {
 					handler.HandleInSync(ctx)
